@@ -8,6 +8,7 @@ import XdsVerif.Driver.C15
 import XdsVerif.Driver.C20
 import XdsVerif.Driver.Handlers
 import XdsVerif.Driver.Decode
+import XdsVerif.Driver.Conc
 open Lean XdsVerif.Driver
 
 def dispatch (p : String) (j : Json) : Except String Verdict :=
@@ -17,6 +18,9 @@ def dispatch (p : String) (j : Json) : Except String Verdict :=
   | "C03" => Hist.check "C03" j
   | "C04" => Hist.check "C04" j
   | "C19" => Hist.check "C19" j
+  | "C05" => Conc.check "C05" j
+  | "C06" => Conc.check "C06" j
+  | "C07" => Conc.check "C07" j
   | "C08" => C08.check j
   | "C09" => C09.check j
   | "C10" => C10.check j
